@@ -298,8 +298,12 @@ theorem satAdd_lt (a b : Nat) : U256.saturatingAdd a b < W := by
   have := W_val
   split <;> omega
 
-theorem tot2_finish {w : World} (h : WOk w) (e : Evm.Env) (spec fg r7 : Nat) (ic : Bool) (res : Interp.ChildResult) :
-    Tot2 (finish e spec fg r7 ic res w) (fun p => WOk p.2) := by
+theorem classOf_some {r : Interp.IResult} (h : RGood r) : ∃ c, classOf r = some c := by
+  obtain ⟨h1, h2, h3, h4⟩ := h
+  cases r <;> first | exact ⟨_, rfl⟩ | contradiction
+
+theorem tot2_finish {w : World} (h : WOk w) (e : Evm.Env) (spec fg r7 : Nat) (ic : Bool) (res : Interp.ChildResult)
+    (hres : RGood res.result) : Tot2 (finish e spec fg r7 ic res w) (fun p => WOk p.2) := by
   unfold finish
   generalize finalGas e spec fg r7 res = g
   dsimp only
@@ -316,9 +320,9 @@ theorem tot2_finish {w : World} (h : WOk w) (e : Evm.Env) (spec fg r7 : Nat) (ic
   dsimp only at hr3 ⊢
   refine tot2_bind (tot2_of_tot (tot_acct hr3.2)) (fun bacc hbacc => ?_)
   refine tot2_bind (P := fun _ => True) ?_ (fun cls _ => ?_)
-  · cases classOf res.result with
-    | none => exact tot2_resid (by unfold Resid; simp)
-    | some c => exact tot2_pure trivial
+  · obtain ⟨c, hc⟩ := classOf_some hres
+    rw [hc]
+    exact tot2_pure trivial
   · have hw4 : ∀ acc' : Journal.Acct, acc'.storage = bacc.storage → acc'.info.balance < W →
         WOk { w3 with js := Journal.setAcct w3.js e.block.coinbase acc' } :=
       fun acc' h1 h2 => (wok_setInfo hr3.1.ok hbacc h1 h2).ok
@@ -329,13 +333,13 @@ theorem tot2_finish {w : World} (h : WOk w) (e : Evm.Env) (spec fg r7 : Nat) (ic
 def FirstOk (p : FrameOrResult Journal.Checkpoint × World × Bool × Nat) : Prop :=
   match p.1 with
   | .frame f => LI [f] p.2.1
-  | .result _ => WOk p.2.1
+  | .result r => WOk p.2.1 ∧ RGood r.result
 
 theorem first_of_fout {w w1 : World} {fr : FrameOrResult Journal.Checkpoint} (h : WOk w) (fo : FOut w w1 fr)
-    (fa : FrAddr w1 fr) (b : Bool) (k : Nat) : FirstOk (fr, w1, b, k) := by
+    (fa : FrAddr w1 fr) (hrg : ∀ r, fr = .result r → RGood r.result) (b : Bool) (k : Nat) : FirstOk (fr, w1, b, k) := by
   unfold FirstOk
   cases fr with
-  | result r => exact fo.ok
+  | result r => exact ⟨fo.ok, hrg r rfl⟩
   | frame f =>
     obtain ⟨k1, k2⟩ := fo.cp f rfl
     have := wok_len_pos h
@@ -354,12 +358,12 @@ theorem tot2_prepare {w : World} (h : WOk w) (e : Evm.Env) (spec ig : Nat)
   obtain ⟨wa, rf⟩ := p
   dsimp only at hp ⊢
   split
-  · refine tot2_bind (tot2_makeFrame (cfg := e.toCfg spec) hp.ok (.call _) Memory.new) (fun q hq => ?_)
+  · refine tot2_bind' (tot2_makeFrame (cfg := e.toCfg spec) hp.ok (.call _) Memory.new) (fun q heq hq => ?_)
     obtain ⟨f, wf⟩ := q
-    exact tot2_pure (first_of_fout hp.ok hq.1 hq.2 _ _)
-  · refine tot2_bind (tot2_makeFrame (cfg := e.toCfg spec) hp.ok (.create _) Memory.new) (fun q hq => ?_)
+    exact tot2_pure (first_of_fout hp.ok hq.1 hq.2 (fun r hr => by subst hr; exact makeCallFrame_rgood heq) _ _)
+  · refine tot2_bind' (tot2_makeFrame (cfg := e.toCfg spec) hp.ok (.create _) Memory.new) (fun q heq hq => ?_)
     obtain ⟨f, wf⟩ := q
-    exact tot2_pure (first_of_fout hp.ok hq.1 hq.2 _ _)
+    exact tot2_pure (first_of_fout hp.ok hq.1 hq.2 (fun r hr => by subst hr; exact makeCreateFrame_rgood heq) _ _)
 
 /-- **`Evm.transact` hits no journal / frame-machine `unwrap`**: on a well-formed world (C07 `Good` journal, 256-bit
 balances in the database), for every environment, fork and fuel, the answer is a result, a soft failure, or a residual
@@ -382,13 +386,13 @@ theorem transact_tot2 (fuel : Nat) (w : World) (e : Evm.Env) (spec : Nat) (h : W
     refine tot2_bind' (tot2_prepare h1 e _ ig hfee) (fun q hprep hq => ?_)
     obtain ⟨first, w2, isCreate, k⟩ := q
     dsimp only
-    refine tot2_bind (P := fun p : Interp.ChildResult × World => WOk p.2) ?_ (fun p hp => ?_)
+    refine tot2_bind (P := fun p : Interp.ChildResult × World => WOk p.2 ∧ RGood p.1.result) ?_ (fun p hp => ?_)
     · unfold FirstOk at hq
       cases first with
       | frame f => exact (tot2_runLoop _ fuel).1 [f] w2 (List.cons_ne_nil _ _) hq (Proofs.EvmInstLoaded.prepare_inv hprep)
       | result r => exact tot2_pure hq
     · obtain ⟨res, w3⟩ := p
-      exact tot2_finish hp e _ fg k isCreate res
+      exact tot2_finish hp.1 e _ fg k isCreate res hp.2
 
 /-- a world on a fresh journal, with 256-bit balances in the pre-state, is well formed -/
 theorem wok_fresh (w : World) (spec : Nat) (pre : Nat → Bool) (hjs : w.js = Journal.JState.new spec pre)
